@@ -267,6 +267,23 @@ def check_estimate(fx, R, cq, cname, f, tag):
         return None
     psize, D = ps
     loc = fx.rel(f['loc'])
+    # ---- the list the rows are built from is the caller's list: a local copy may be re-ordered, but no element may be removed from it -----------------------------------------
+    if tag == 'indexed':
+        lists_ = [v_ for x_ in walk(f['body']) if isinstance(x_, dict) and x_.get('k') == 'Decl' for v_ in x_['vars'] if 'std::vector<romea::core::Correspondence' in (v_.get('t') or {}).get('s', '')
+                  and not (v_.get('t') or {}).get('ref')]
+        for v_ in lists_:
+            removing = [y_ for y_ in walk(f['body']) if isinstance(y_, dict) and y_.get('k') == 'MCall' and y_.get('m') in ('erase', 'resize', 'pop_back', 'clear', 'remove_if', 'shrink_to_fit') and strip_casts(y_.get('obj')).get('id') == v_['id']
+                        and y_.get('m') != 'shrink_to_fit']
+            filt = [y_ for y_ in walk(f['body']) if isinstance(y_, dict) and y_.get('k') == 'Call' and (y_.get('fn') or '').split('<')[0] in ('std::unique', 'std::remove_if', 'std::remove', 'std::partition', 'std::copy_if')
+                    and v_['name'] in pp(y_)]
+            if removing or filt:
+                what_ = pp((filt or removing)[0])[:140]
+                R.violated('P1', inst + ':list:entries-removed', 'the rows are built from `%s`, a local copy of the caller\'s correspondence list from which entries are REMOVED (`%s`): every correspondence is one row of the '
+                           'problem the statement names - with a many-to-one list (a target point matched by several source points, which the nearest-neighbour association produces) the dropped rows have non-zero '
+                           'residuals, so the parameters returned are not those of the normal equations of the list that was given, and differ from the aligned overload on the same pairs%s' % (v_['name'], what_, ptag),
+                           fx.rel((filt or removing)[0].get('loc') or f['loc']), 'E-STATE')
+            else:
+                R.holds('P1', inst + ':list:local-copy' + ptag, 'a local copy of the list is only re-ordered', loc, 'E-STATE')
     # ---- P7: a return in front of the accumulation loop, decided on the counts of the quantifier (6..500 correspondences) ----------------
     import re
     from .. import mini
